@@ -1,8 +1,9 @@
-(* C05 -- the timed manager: _time_added stays sorted and covers every entry (under add, the repaired
-   join, gc, delete, along every history whose clock does not go backwards); hence gc() leaves no entry
-   older than the timeout. *)
+(* C05 -- the timed manager (code after a58d69d): _time_added stays sorted, bounded by the clock, with a
+   stamp for every entry and an entry for every stamp, cache_obj keeps one entry per key -- under add,
+   the repaired join, gc, the repaired delete, along every history whose clock does not go backwards.
+   Hence gc() leaves no entry older than the timeout and removes nothing younger. *)
 From Coq Require Import ZArith List Bool Lia.
-Require Import PV.Model.Cache PV.Model.CacheSpec PV.Proofs.CacheStream.
+Require Import PV.Model.Cache PV.Model.CacheSpec PV.Proofs.CacheStream PV.Proofs.CacheRecompute.
 Import ListNotations.
 Open Scope Z_scope.
 
@@ -10,7 +11,73 @@ Section Timed.
 Variable A : Type.
 Implicit Types (m : mgr A) (rn : list (node A)) (es : list (key * (list A * Z))) (ta : list (key * Z)).
 
-Definition covers es ta : Prop := forall k d t, In (k, (d, t)) es -> In (k, t) ta.
+(* ---------------------------------------------------------------- dictionaries keep one entry per key *)
+Lemma NoDup_map_filter : forall {X Y} (f : X -> Y) (p : X -> bool) (l : list X),
+  NoDup (map f l) -> NoDup (map f (filter p l)).
+Proof.
+  induction l as [|a l IH]; simpl; intros H; auto. inversion H; subst.
+  destruct (p a); simpl; auto. constructor; auto.
+  intros Hin. apply H2. apply in_map_iff in Hin. destruct Hin as [x [E Hx]]. apply filter_In in Hx.
+  apply in_map_iff. exists x; tauto.
+Qed.
+Lemma dict_del_nodup : forall {V} k (d : list (key * V)), NoDup (map fst d) -> NoDup (map fst (dict_del k d)).
+Proof. intros; unfold dict_del. apply NoDup_map_filter; auto. Qed.
+Lemma dict_set_nodup : forall {V} k (v : V) d, NoDup (map fst d) -> NoDup (map fst (dict_set k v d)).
+Proof.
+  induction d as [|[k' v'] d IH]; simpl; intros H.
+  - constructor; [intros [] | constructor].
+  - inversion H; subst. destruct (key_eqb k k') eqn:E; simpl.
+    + constructor; auto.
+    + constructor; auto. rewrite dict_set_keys. intros [->|Hin]; auto.
+      rewrite key_eqb_refl in E; discriminate.
+Qed.
+Lemma nodup_keys_unique : forall {V} (d : list (key * V)) k v1 v2,
+  NoDup (map fst d) -> In (k, v1) d -> In (k, v2) d -> v1 = v2.
+Proof.
+  induction d as [|[k' v'] d IH]; simpl; intros k v1 v2 Hn H1 H2; [contradiction|].
+  inversion Hn; subst. destruct H1 as [E1|H1], H2 as [E2|H2].
+  - congruence.
+  - inversion E1; subst. exfalso. apply H3. apply (in_map fst) in H2; auto.
+  - inversion E2; subst. exfalso. apply H3. apply (in_map fst) in H1; auto.
+  - eapply IH; eauto.
+Qed.
+
+Definition upd now (acc : list (key * (list A * Z))) (kv : key * (list A * Z)) := dict_set (fst kv) (fst (snd kv), now) acc.
+
+Lemma fold_set_other : forall now (new es : list (key * (list A * Z))) x,
+  In x es -> ~ In (fst x) (map fst new) -> In x (fold_left (upd now) new es).
+Proof.
+  induction new as [|kv new IH]; simpl; intros es x H Hn; auto.
+  apply IH; [|intros Hin; apply Hn; auto]. apply dict_set_other; auto.
+Qed.
+Lemma fold_set_has : forall now (new es : list (key * (list A * Z))) kv,
+  NoDup (map fst new) -> In kv new -> In (fst kv, (fst (snd kv), now)) (fold_left (upd now) new es).
+Proof.
+  induction new as [|kv0 new IH]; simpl; intros es kv Hn Hin; [contradiction|].
+  inversion Hn; subst. destruct Hin as [->|Hin].
+  - apply fold_set_other; simpl; auto. apply dict_set_has.
+  - apply IH; auto.
+Qed.
+Lemma fold_set_nodup : forall now (new es : list (key * (list A * Z))),
+  NoDup (map fst es) -> NoDup (map fst (fold_left (upd now) new es)).
+Proof.
+  induction new as [|kv new IH]; simpl; intros es H; auto. apply IH. apply dict_set_nodup; auto.
+Qed.
+
+(* ---------------------------------------------------------------- the invariant on raw components *)
+Definition tinv (now : Z) es ta : Prop :=
+  sorted_times ta /\
+  (forall kt, In kt ta -> snd kt <= now) /\
+  (forall k d t, In (k, (d, t)) es -> In (k, t) ta) /\
+  (forall k t, In (k, t) ta -> exists d, In (k, (d, t)) es) /\
+  NoDup (map fst es).
+
+Lemma sorted_drop : forall k ta, sorted_times ta -> sorted_times (drop_stamps k ta).
+Proof.
+  intros k. unfold drop_stamps. induction ta as [|[k' t'] ta IH]; simpl; intros H; auto.
+  destruct H as [H1 H2]. destruct (negb (key_eqb k k')); simpl; auto. split; auto.
+  intros kt Hin. apply filter_In in Hin. apply H1; tauto.
+Qed.
 
 Lemma sorted_app_last : forall ta l now,
   sorted_times ta -> (forall kt, In kt ta -> snd kt <= now) -> (forall kt, In kt l -> snd kt = now) ->
@@ -26,91 +93,147 @@ Proof.
     + eapply IH; eauto.
 Qed.
 
-(* the gc loop *)
-Lemma gc_go_inv : forall thr ta es,
-  sorted_times ta -> covers es ta ->
-  sorted_times (fst (gc_go thr ta es)) /\ covers (snd (gc_go thr ta es)) (fst (gc_go thr ta es)) /\
-  (forall kt, In kt (fst (gc_go thr ta es)) -> snd kt > thr) /\ (forall kt, In kt (fst (gc_go thr ta es)) -> In kt ta).
+Lemma tinv_delete : forall now k es ta, tinv now es ta -> tinv now (dict_del k es) (drop_stamps k ta).
 Proof.
-  induction ta as [|[k t] ta IH]; intros es Hs Hc; simpl.
-  - split; [exact I | split; [exact Hc | split; intros kt Hin; contradiction]].
-  - destruct (t >? thr) eqn:E; simpl.
-    + split; [exact Hs | split; [exact Hc | split; [|auto]]].
-      intros kt [<-|Hin]; simpl; [lia|].
-      destruct Hs as [H1 _]. specialize (H1 kt Hin). lia.
-    + destruct Hs as [H1 H2].
-      assert (Hc' : covers (dict_del k es) ta).
-      { intros k' d' t' Hin. apply dict_del_In in Hin. destruct Hin as [Hin Hne]. simpl in Hne.
-        apply Hc in Hin. destruct Hin as [Hin|Hin]; auto. inversion Hin; congruence. }
-      destruct (IH (dict_del k es) H2 Hc') as [I1 [I2 [I3 I4]]].
-      split; [exact I1 | split; [exact I2 | split; [exact I3 | intros kt Hin; right; auto]]].
+  intros now k es ta [T1 [T2 [T3 [T4 T5]]]]. split; [apply sorted_drop; auto|]. split; [|split; [|split]].
+  - intros kt Hin. apply drop_stamps_In in Hin. apply T2; tauto.
+  - intros k' d t Hin. apply dict_del_In in Hin. destruct Hin as [Hin Hne]. apply drop_stamps_In. split; eauto.
+  - intros k' t Hin. apply drop_stamps_In in Hin. destruct Hin as [Hin Hne]. destruct (T4 _ _ Hin) as [d Hd].
+    exists d. apply dict_del_In; auto.
+  - apply dict_del_nodup; auto.
 Qed.
 
-(* gc_complete at the level of one manager *)
+(* the gc loop: the fuel is enough, the invariant is kept, every stamp left is above the threshold *)
+Lemma gc_go_inv : forall fuel now thr ta es,
+  (length ta <= fuel)%nat -> tinv now es ta ->
+  tinv now (snd (gc_go fuel thr ta es)) (fst (gc_go fuel thr ta es)) /\
+  (forall kt, In kt (fst (gc_go fuel thr ta es)) -> snd kt > thr).
+Proof.
+  induction fuel as [|fuel IH]; intros now thr ta es Hl Hi; simpl.
+  - destruct ta; [|simpl in Hl; lia]. split; auto. intros kt [].
+  - destruct ta as [|[k t] ta]; [split; auto; intros kt []|].
+    destruct (t >? thr) eqn:E; simpl.
+    + split; auto. destruct Hi as [[H1 _] _]. intros kt [<-|Hin]; simpl; [lia|]. specialize (H1 kt Hin). lia.
+    + apply IH.
+      * pose proof (drop_stamps_length k ta). simpl in Hl. lia.
+      * destruct Hi as [T1 [T2 [T3 [T4 T5]]]]. destruct T1 as [S1 S2].
+        split; [apply sorted_drop; auto|]. split; [|split; [|split]].
+        -- intros kt Hin. apply drop_stamps_In in Hin. apply T2; right; tauto.
+        -- intros k' d t' Hin. apply dict_del_In in Hin. destruct Hin as [Hin Hne]. simpl in Hne.
+           apply drop_stamps_In. split; auto. apply T3 in Hin. destruct Hin as [Hin|Hin]; auto.
+           inversion Hin; congruence.
+        -- intros k' t' Hin. apply drop_stamps_In in Hin. destruct Hin as [Hin Hne]. simpl in Hne.
+           destruct (T4 k' t' (or_intror Hin)) as [d Hd]. exists d. apply dict_del_In; auto.
+        -- apply dict_del_nodup; auto.
+Qed.
+
+Lemma timed_inv_tinv : forall now m, timed_inv now m <-> tinv now (m_entries m) (m_times m).
+Proof. intros; unfold timed_inv, tinv; tauto. Qed.
+
 Theorem gc_complete_mgr : forall now0 now m to,
   m_timeout m = Some to -> timed_inv now0 m ->
   forall k d t, In (k, (d, t)) (m_entries (m_gc now m)) -> t > now - to.
 Proof.
-  intros now0 now m to Hto [Hs [Hb Hc]] k d t Hin. unfold m_gc in Hin. rewrite Hto in Hin.
-  pose proof (gc_go_inv (now - to) (m_times m) (m_entries m) Hs Hc) as [I1 [I2 [I3 I4]]].
-  destruct (gc_go (now - to) (m_times m) (m_entries m)) as [ta es]; simpl in *.
-  apply I2 in Hin. apply I3 in Hin. exact Hin.
+  intros now0 now m to Hto Hi k d t Hin. unfold m_gc in Hin. rewrite Hto in Hin.
+  apply timed_inv_tinv in Hi.
+  pose proof (gc_go_inv (length (m_times m)) now0 (now - to) (m_times m) (m_entries m) (le_n _) Hi) as [[_ [_ [T3 _]]] G].
+  destruct (gc_go (length (m_times m)) (now - to) (m_times m) (m_entries m)) as [ta es]; simpl in *.
+  apply T3 in Hin. apply G in Hin. exact Hin.
 Qed.
 
 Lemma timed_inv_gc : forall now0 now m, timed_inv now0 m -> timed_inv now0 (m_gc now m).
 Proof.
-  intros now0 now m [Hs [Hb Hc]]. unfold m_gc. destruct (m_timeout m) as [to|]; [|repeat split; auto].
-  pose proof (gc_go_inv (now - to) (m_times m) (m_entries m) Hs Hc) as [I1 [I2 [I3 I4]]].
-  destruct (gc_go (now - to) (m_times m) (m_entries m)) as [ta es]; simpl in *.
-  repeat split; simpl; auto.
+  intros now0 now m Hi. unfold m_gc. destruct (m_timeout m) as [to|]; auto.
+  apply timed_inv_tinv in Hi.
+  pose proof (gc_go_inv (length (m_times m)) now0 (now - to) (m_times m) (m_entries m) (le_n _) Hi) as [G _].
+  destruct (gc_go (length (m_times m)) (now - to) (m_times m) (m_entries m)) as [ta es]; simpl in *.
+  apply timed_inv_tinv; simpl; auto.
 Qed.
 
-Lemma timed_inv_add : forall now k d m, timed_inv now m -> m_timeout m <> None -> timed_inv now (m_add now k d m).
+Lemma timed_inv_add : forall now k d m,
+  timed_inv now m -> m_timeout m <> None -> ~ has_key k m -> timed_inv now (m_add now k d m).
 Proof.
-  intros now k d m [Hs [Hb Hc]] Hto. unfold m_add. destruct (m_timeout m) as [to|]; [|congruence].
-  apply timed_inv_gc. repeat split; simpl.
+  intros now k d m [T1 [T2 [T3 [T4 T5]]]] Hto Hk. unfold m_add. destruct (m_timeout m) as [to|]; [|congruence].
+  apply timed_inv_gc. split; [|split; [|split; [|split]]]; simpl.
   - eapply sorted_app_last; eauto. intros kt [<-|[]]; reflexivity.
   - intros kt Hin. apply in_app_or in Hin. destruct Hin as [Hin|[<-|[]]]; simpl; auto; lia.
   - intros k' d' t' Hin. apply dict_set_In in Hin. apply in_or_app. destruct Hin as [E|Hin].
     + inversion E; subst. right; left; reflexivity.
     + left; eauto.
+  - intros k' t' Hin. apply in_app_or in Hin. destruct Hin as [Hin|[E|[]]].
+    + destruct (T4 _ _ Hin) as [d' Hd]. exists d'. apply dict_set_other; auto. simpl. intros ->.
+      apply Hk. unfold has_key. apply (in_map fst) in Hd; auto.
+    + inversion E; subst. exists d. apply dict_set_has.
+  - apply dict_set_nodup; auto.
 Qed.
 
-Lemma timed_inv_join : forall now new m, timed_inv now m -> m_timeout m <> None -> timed_inv now (m_join now new m).
+Lemma timed_inv_join : forall now new m,
+  timed_inv now m -> m_timeout m <> None ->
+  NoDup (map fst new) -> (forall kv, In kv new -> ~ has_key (fst kv) m) ->
+  timed_inv now (m_join now new m).
 Proof.
-  intros now new m [Hs [Hb Hc]] Hto. unfold m_join. destruct (m_timeout m) as [to|]; [|congruence].
-  apply timed_inv_gc. repeat split; simpl.
+  intros now new m [T1 [T2 [T3 [T4 T5]]]] Hto Hn Hk. unfold m_join. destruct (m_timeout m) as [to|]; [|congruence].
+  apply timed_inv_gc. split; [|split; [|split; [|split]]]; simpl.
   - eapply sorted_app_last; eauto. intros kt Hin. apply in_map_iff in Hin. destruct Hin as [kv [<- _]]; reflexivity.
   - intros kt Hin. apply in_app_or in Hin. destruct Hin as [Hin|Hin]; auto.
     apply in_map_iff in Hin. destruct Hin as [kv [<- _]]; simpl; lia.
   - intros k' d' t' Hin. apply join_fold_In in Hin. apply in_or_app. destruct Hin as [Hin|[kv [Hin E]]].
     + left; eauto.
     + inversion E; subst. right. apply in_map_iff. exists kv; auto.
+  - intros k' t' Hin. apply in_app_or in Hin. destruct Hin as [Hin|Hin].
+    + destruct (T4 _ _ Hin) as [d' Hd]. exists d'. apply (fold_set_other now new (m_entries m) (k', (d', t'))); auto.
+      simpl. intros Hin'. apply in_map_iff in Hin'. destruct Hin' as [kv [E Hkv]].
+      apply (Hk kv Hkv). rewrite E. unfold has_key. apply (in_map fst) in Hd; auto.
+    + apply in_map_iff in Hin. destruct Hin as [kv [E Hkv]]. inversion E; subst.
+      exists (fst (snd kv)). apply (fold_set_has _ new (m_entries m) kv); auto.
+  - apply (fold_set_nodup now new (m_entries m)); auto.
 Qed.
 
 Lemma timed_inv_delete : forall now k m, timed_inv now m -> timed_inv now (m_delete k m).
 Proof.
-  intros now k m [Hs [Hb Hc]]. repeat split; simpl; auto.
-  intros k' d' t' Hin. apply dict_del_In in Hin. destruct Hin; eauto.
+  intros now k m Hi. apply timed_inv_tinv. unfold m_delete; simpl. apply tinv_delete. apply timed_inv_tinv; auto.
 Qed.
 
 Lemma timed_inv_later : forall now now' m, now <= now' -> timed_inv now m -> timed_inv now' m.
 Proof.
-  intros now now' m Hle [Hs [Hb Hc]]. repeat split; auto. intros kt Hin. specialize (Hb kt Hin). lia.
+  intros now now' m Hle [T1 [T2 T3]]. split; auto. split; auto. intros kt Hin. specialize (T2 kt Hin). lia.
 Qed.
 
-(* managers of either class *)
+(* with the invariant, "no stamp of k is expired" is "the entry of k is younger than the timeout" *)
+Lemma fresh_entry_stable : forall now0 now m to k d t,
+  m_timeout m = Some to -> timed_inv now0 m ->
+  In (k, (d, t)) (m_entries m) -> t > now - to -> stable now k m.
+Proof.
+  intros now0 now m to k d t Hto [_ [_ [_ [T4 T5]]]] Hin Ht. unfold stable. rewrite Hto.
+  intros t' Hs. destruct (T4 _ _ Hs) as [d' Hd].
+  pose proof (nodup_keys_unique _ _ _ _ T5 Hin Hd) as E. inversion E; subst. exact Ht.
+Qed.
+
+(* gc removes nothing younger than the timeout *)
+Theorem gc_only_expired_mgr : forall now0 now m to k d t,
+  m_timeout m = Some to -> timed_inv now0 m ->
+  In (k, (d, t)) (m_entries m) -> t > now - to -> has_key k (m_gc now m).
+Proof.
+  intros now0 now m to k d t Hto Hi Hin Ht.
+  assert (Hk : kept A now k m).
+  { split; [unfold has_key; apply (in_map fst) in Hin; auto | eapply fresh_entry_stable; eauto]. }
+  apply (kept_gc A now k m Hk).
+Qed.
+
+(* ---------------------------------------------------------------- managers of either class *)
 Definition mgr_inv (now : Z) m : Prop :=
   match m_timeout m with None => True | Some _ => timed_inv now m end.
 
-Lemma mgr_inv_add : forall now k d m, mgr_inv now m -> mgr_inv now (m_add now k d m).
+Lemma mgr_inv_add : forall now k d m, mgr_inv now m -> ~ has_key k m -> mgr_inv now (m_add now k d m).
 Proof.
-  intros now k d m H. unfold mgr_inv in *. rewrite m_add_timeout.
+  intros now k d m H Hk. unfold mgr_inv in *. rewrite m_add_timeout.
   destruct (m_timeout m) eqn:E; auto. apply timed_inv_add; auto. congruence.
 Qed.
-Lemma mgr_inv_join : forall now new m, mgr_inv now m -> mgr_inv now (m_join now new m).
+Lemma mgr_inv_join : forall now new m,
+  mgr_inv now m -> NoDup (map fst new) -> (forall kv, In kv new -> ~ has_key (fst kv) m) ->
+  mgr_inv now (m_join now new m).
 Proof.
-  intros now new m H. unfold mgr_inv in *. rewrite m_join_timeout.
+  intros now new m H Hn Hk. unfold mgr_inv in *. rewrite m_join_timeout.
   destruct (m_timeout m) eqn:E; auto. apply timed_inv_join; auto. congruence.
 Qed.
 Lemma mgr_inv_gc : forall now m, mgr_inv now m -> mgr_inv now (m_gc now m).
@@ -123,7 +246,91 @@ Proof.
   intros now k m H. unfold mgr_inv in *. simpl. destruct (m_timeout m); auto. apply timed_inv_delete; auto.
 Qed.
 
-Lemma compute_inv : forall now rn i src m, mgr_inv now m -> mgr_inv now (snd (fst (compute now rn i src m))).
+(* keys that a computation can add: the persist marks of the descent, for this partition *)
+Lemma compute_keys_rid : forall now rn i src m k,
+  has_key k (snd (fst (compute now rn i src m))) -> has_key k m \/ (snd k = i /\ In (fst k) (map fst rn)).
+Proof.
+  induction rn as [|[rid st] up IH]; intros i src m k H; simpl in *; auto.
+  specialize (IH i src m k).
+  destruct st as [f|p|g|].
+  - destruct (compute now up i src m) as [[s m1] ev]; simpl in *. destruct (IH H) as [|[? ?]]; auto.
+  - destruct (compute now up i src m) as [[s m1] ev]; simpl in *. destruct (IH H) as [|[? ?]]; auto.
+  - destruct (compute now up i src m) as [[s m1] ev]; simpl in *. destruct (IH H) as [|[? ?]]; auto.
+  - destruct (m_get (rid, i) m) as [data|]; simpl in *; auto.
+    destruct (compute now up i src m) as [[s m1] ev]; simpl in *.
+    unfold has_key in H. apply in_map_iff in H. destruct H as [e [E Hin]].
+    apply m_add_In in Hin. destruct Hin as [->|Hin].
+    + simpl in E; subst k. right; simpl; auto.
+    + destruct IH as [|[? ?]]; auto. unfold has_key. rewrite <- E. apply in_map; auto.
+Qed.
+
+Lemma compute_inv : forall now rn i src m,
+  NoDup (map fst rn) -> mgr_inv now m -> mgr_inv now (snd (fst (compute now rn i src m))).
+Proof.
+  induction rn as [|[rid st] up IH]; intros i src m Hn H; simpl; auto.
+  simpl in Hn. inversion Hn as [|x l Hx Hn']; subst.
+  specialize (IH i src m Hn' H).
+  pose proof (compute_keys_rid now up i src m (rid, i)) as K.
+  destruct st as [f|p|g|].
+  - destruct (compute now up i src m) as [[s m1] ev]; simpl in *; auto.
+  - destruct (compute now up i src m) as [[s m1] ev]; simpl in *; auto.
+  - destruct (compute now up i src m) as [[s m1] ev]; simpl in *; auto.
+  - destruct (m_get (rid, i) m) eqn:G; simpl; auto.
+    destruct (compute now up i src m) as [[s m1] ev]; simpl in *. apply mgr_inv_add; auto.
+    intros Hk. destruct (K Hk) as [Hk'|[_ Hin]]; [|simpl in Hin; contradiction].
+    apply m_get_None in G. contradiction.
+Qed.
+
+Lemma run_all_inv : forall now rn parts i m,
+  NoDup (map fst rn) -> mgr_inv now m -> mgr_inv now (snd (run_all now rn parts i m)).
+Proof.
+  induction parts as [|src ps IH]; intros i m Hn H; simpl; auto.
+  pose proof (compute_inv now rn i src m Hn H) as C.
+  destruct (compute now rn i src m) as [[s m1] ev0]; simpl in *.
+  specialize (IH (i + 1) m1 Hn C). destruct (run_all now rn ps (i + 1) m1) as [[rest ev2] m2]; simpl in *; auto.
+Qed.
+
+Lemma run_take_inv : forall now rn parts i n m,
+  NoDup (map fst rn) -> mgr_inv now m -> mgr_inv now (snd (run_take now rn parts i n m)).
+Proof.
+  induction parts as [|src ps IH]; intros i n m Hn H.
+  - destruct n; simpl; auto.
+  - destruct n as [|n']; [simpl; auto|].
+    change (run_take now rn (src :: ps) i (Datatypes.S n') m) with
+      (let '(s, m1, ev0) := compute now rn i src m in
+       let '(xs, ev1, r) := ltake (Datatypes.S n') (cells s) (trail s) in
+       let '(ys, ev2, m2) := run_take now rn ps (i + 1) r m1 in
+       (xs ++ ys, ev0 ++ ev1 ++ ev2, m2)).
+    pose proof (compute_inv now rn i src m Hn H) as C.
+    destruct (compute now rn i src m) as [[s m1] ev0].
+    remember (ltake (Datatypes.S n') (cells s) (trail s)) as lt eqn:Elt. clear Elt.
+    destruct lt as [[xs ev1] r]. cbn [fst snd] in *.
+    specialize (IH (i + 1) r m1 Hn C). destruct (run_take now rn ps (i + 1) r m1) as [[ys ev2] m2]; auto.
+Qed.
+
+(* ---- pool jobs: what the workers send back is new to the driver ---- *)
+Lemma gc_go_nodup : forall fuel thr ta es,
+  NoDup (map fst es) -> NoDup (map fst (snd (gc_go fuel thr ta es))).
+Proof.
+  induction fuel as [|fuel IH]; intros thr ta es H; simpl; auto.
+  destruct ta as [|[k t] ta]; simpl; auto. destruct (t >? thr); simpl; auto.
+  apply IH. apply dict_del_nodup; auto.
+Qed.
+Lemma m_gc_nodup : forall now m, NoDup (map fst (m_entries m)) -> NoDup (map fst (m_entries (m_gc now m))).
+Proof.
+  intros now m H. unfold m_gc. destruct (m_timeout m) as [to|]; auto.
+  pose proof (gc_go_nodup (length (m_times m)) (now - to) (m_times m) (m_entries m) H) as G.
+  destruct (gc_go (length (m_times m)) (now - to) (m_times m) (m_entries m)) as [ta es]; simpl in *; auto.
+Qed.
+Lemma m_add_nodup : forall now k d m, NoDup (map fst (m_entries m)) -> NoDup (map fst (m_entries (m_add now k d m))).
+Proof.
+  intros now k d m H. unfold m_add. destruct (m_timeout m) as [to|]; simpl.
+  - apply m_gc_nodup; simpl. apply dict_set_nodup; auto.
+  - apply dict_set_nodup; auto.
+Qed.
+
+Lemma compute_nodup : forall now rn i src m,
+  NoDup (map fst (m_entries m)) -> NoDup (map fst (m_entries (snd (fst (compute now rn i src m))))).
 Proof.
   induction rn as [|[rid st] up IH]; intros i src m H; simpl; auto.
   specialize (IH i src m H).
@@ -132,59 +339,88 @@ Proof.
   - destruct (compute now up i src m) as [[s m1] ev]; simpl in *; auto.
   - destruct (compute now up i src m) as [[s m1] ev]; simpl in *; auto.
   - destruct (m_get (rid, i) m); simpl; auto.
-    destruct (compute now up i src m) as [[s m1] ev]; simpl in *. apply mgr_inv_add; auto.
+    destruct (compute now up i src m) as [[s m1] ev]; simpl in *. apply m_add_nodup; auto.
 Qed.
 
-Lemma run_all_inv : forall now rn parts i m, mgr_inv now m -> mgr_inv now (snd (run_all now rn parts i m)).
+Fixpoint tasks_new (m0 : mgr A) (i : Z) (ts : list (list A * list (event A) * list (key * (list A * Z)))) : Prop :=
+  match ts with
+  | [] => True
+  | t :: ts' =>
+      (NoDup (map fst (snd t)) /\
+       forall kv, In kv (snd t) -> snd (fst kv) = i /\ ~ has_key (fst kv) m0) /\ tasks_new m0 (i + 1) ts'
+  end.
+
+Lemma pool_tasks_new : forall now rn parts i m0,
+  NoDup (map fst (m_entries m0)) -> tasks_new m0 i (pool_tasks now rn parts i m0).
 Proof.
-  induction parts as [|src ps IH]; intros i m H; simpl; auto.
-  pose proof (compute_inv now rn i src m H) as C.
-  destruct (compute now rn i src m) as [[s m1] ev0]; simpl in *.
-  specialize (IH (i + 1) m1 C). destruct (run_all now rn ps (i + 1) m1) as [[rest ev2] m2]; simpl in *; auto.
+  induction parts as [|src ps IH]; intros i m0 Hn; simpl; auto.
+  assert (Hc : NoDup (map fst (m_entries (m_clone i m0)))).
+  { unfold m_clone; simpl. apply NoDup_map_filter; auto. }
+  pose proof (compute_nodup now rn i src (m_clone i m0) Hc) as C.
+  pose proof (compute_new_keys A now rn i src (m_clone i m0)) as NK.
+  destruct (compute now rn i src (m_clone i m0)) as [[s cl1] ev0]; simpl in *.
+  split; [|apply IH; auto]. split.
+  - unfold m_not_in. apply NoDup_map_filter; auto.
+  - intros kv Hin. unfold m_not_in in Hin. apply filter_In in Hin. destruct Hin as [Hin Hf].
+    apply negb_true_iff in Hf.
+    assert (Hnb : ~ In (fst kv) (m_idents (m_clone i m0))).
+    { intros Hb. unfold key_in in Hf.
+      assert (existsb (key_eqb (fst kv)) (m_idents (m_clone i m0)) = true).
+      { apply existsb_exists. exists (fst kv); split; auto. apply key_eqb_refl. }
+      congruence. }
+    assert (Hi : snd (fst kv) = i).
+    { destruct (NK kv Hin) as [Hc'|Hi]; auto. exfalso. apply Hnb. unfold m_idents. apply in_map; auto. }
+    split; auto. intros Hk. apply Hnb. unfold has_key in Hk. apply in_map_iff in Hk. destruct Hk as [e [E He]].
+    unfold m_idents. apply in_map_iff. exists e; split; auto. apply m_clone_In; split; auto. rewrite E; auto.
 Qed.
 
-Lemma run_take_inv : forall now rn parts i n m, mgr_inv now m -> mgr_inv now (snd (run_take now rn parts i n m)).
+Lemma join_all_inv : forall now (ts : list (list A * list (event A) * list (key * (list A * Z)))) m0 i m,
+  tasks_new m0 i ts -> mgr_inv now m ->
+  (forall k, has_key k m -> has_key k m0 \/ snd k < i) ->
+  mgr_inv now (fold_left (fun acc t => m_join now (snd t) acc) ts m).
 Proof.
-  induction parts as [|src ps IH]; intros i n m H.
-  - destruct n; simpl; auto.
-  - destruct n as [|n']; [simpl; auto|].
-    change (run_take now rn (src :: ps) i (Datatypes.S n') m) with
-      (let '(s, m1, ev0) := compute now rn i src m in
-       let '(xs, ev1, r) := ltake (Datatypes.S n') (cells s) (trail s) in
-       let '(ys, ev2, m2) := run_take now rn ps (i + 1) r m1 in
-       (xs ++ ys, ev0 ++ ev1 ++ ev2, m2)).
-    pose proof (compute_inv now rn i src m H) as C.
-    destruct (compute now rn i src m) as [[s m1] ev0].
-    remember (ltake (Datatypes.S n') (cells s) (trail s)) as lt eqn:Elt. clear Elt.
-    destruct lt as [[xs ev1] r]. cbn [fst snd] in *.
-    specialize (IH (i + 1) r m1 C). destruct (run_take now rn ps (i + 1) r m1) as [[ys ev2] m2]; auto.
+  induction ts as [|t ts IH]; intros m0 i m Ht Hi Hk; simpl; auto.
+  destruct Ht as [[Hn Hnew] Hts]. apply (IH m0 (i + 1)); auto.
+  - apply mgr_inv_join; auto. intros kv Hin Hkm. destruct (Hnew kv Hin) as [Hs Hn0].
+    destruct (Hk _ Hkm) as [H0|Hlt]; [contradiction | lia].
+  - intros k Hkm. unfold has_key in Hkm. apply in_map_iff in Hkm. destruct Hkm as [e [E He]].
+    apply m_join_In in He. destruct He as [He|[kv [Hkv Ee]]].
+    + destruct (Hk k) as [H0|Hlt]; [unfold has_key; rewrite <- E; apply in_map; auto | auto | right; lia].
+    + subst e. simpl in E. subst k. destruct (Hnew kv Hkv) as [Hs _]. right; lia.
 Qed.
 
 Lemma run_pool_inv : forall now rn parts m, mgr_inv now m -> mgr_inv now (snd (run_pool now rn parts m)).
 Proof.
   intros now rn parts m H. unfold run_pool; simpl.
-  generalize (pool_tasks now rn parts 0 m). intros ts. revert m H.
-  induction ts as [|t ts IH]; intros m H; simpl; auto. apply IH. apply mgr_inv_join; auto.
+  destruct (m_timeout m) eqn:E.
+  - assert (Hn : NoDup (map fst (m_entries m))).
+    { unfold mgr_inv in H. rewrite E in H. destruct H as [_ [_ [_ [_ T5]]]]; auto. }
+    apply (join_all_inv now _ m 0); auto. apply pool_tasks_new; auto.
+  - (* a CacheManager stays a CacheManager *)
+    generalize (pool_tasks now rn parts 0 m). intros ts. revert m H E.
+    induction ts as [|t ts IH]; intros m H E; simpl; auto. apply IH.
+    + unfold mgr_inv. rewrite m_join_timeout, E. exact I.
+    + rewrite m_join_timeout; auto.
 Qed.
 
 Lemma run_action_inv : forall pool now rn parts a m,
-  mgr_inv now m -> mgr_inv now (snd (run_action_on pool now rn parts a m)).
+  NoDup (map fst rn) -> mgr_inv now m -> mgr_inv now (snd (run_action_on pool now rn parts a m)).
 Proof.
-  intros pool now rn parts a m H.
+  intros pool now rn parts a m Hn H.
   assert (Hall : forall ak,
      mgr_inv now (snd (let '(ps, ev, m') := if pool then run_pool now rn parts m else run_all now rn parts 0 m in
                (finish ak ps, ev, m')))).
   { intros ak. destruct pool.
     - pose proof (run_pool_inv now rn parts m H) as R.
       destruct (run_pool now rn parts m) as [[ps ev] m']; simpl in *; auto.
-    - pose proof (run_all_inv now rn parts 0 m H) as R.
+    - pose proof (run_all_inv now rn parts 0 m Hn H) as R.
       destruct (run_all now rn parts 0 m) as [[ps ev] m']; simpl in *; auto. }
   destruct a as [| |n|]; unfold run_action_on; cbv iota.
   - apply Hall.
   - apply Hall.
-  - pose proof (run_take_inv now rn parts 0 n m H) as R.
+  - pose proof (run_take_inv now rn parts 0 n m Hn H) as R.
     destruct (run_take now rn parts 0 n m) as [[xs ev] m']; simpl in *; auto.
-  - pose proof (run_take_inv now rn parts 0 1%nat m H) as R.
+  - pose proof (run_take_inv now rn parts 0 1%nat m Hn H) as R.
     destruct (run_take now rn parts 0 1%nat m) as [[xs ev] m']; simpl in *; auto.
 Qed.
 
@@ -203,6 +439,9 @@ Fixpoint clock_monotone (h : list action) : Prop :=
   | _ :: h' => clock_monotone h'
   end.
 
+(* every pipeline of the world has pairwise distinct dataset ids (true of built worlds) *)
+Definition pipes_nodup (w : world A) : Prop := Forall (fun P => NoDup (map fst (p_nodes P))) (w_pipes w).
+
 Lemma set_nth_Forall' : forall {X} (Q : X -> Prop) n x l, Forall Q l -> Q x -> Forall Q (set_nth n x l).
 Proof.
   induction n; destruct l; simpl; intros Hl Hx; auto; inversion Hl; subst; constructor; auto.
@@ -210,15 +449,28 @@ Qed.
 Lemma Forall_nth : forall {X} (Q : X -> Prop) l n x, Forall Q l -> nth_error l n = Some x -> Q x.
 Proof. intros X Q l n x H E. rewrite Forall_forall in H. apply H. eapply nth_error_In; eauto. Qed.
 
-Lemma step_inv : forall w st a,
-  st_inv st -> match a with Advance dt => 0 <= dt | _ => True end -> st_inv (snd (step w st a)).
+Lemma NoDup_app_left : forall {X} (l1 l2 : list X), NoDup (l1 ++ l2) -> NoDup l1.
 Proof.
-  intros w st a H Ha. unfold st_inv in *. destruct a as [k j ak|k j|dt|mi]; simpl.
-  - destruct (nth_error (w_pipes w) k) as [P|]; auto.
+  induction l1 as [|a l1 IH]; simpl; intros l2 H; [constructor|].
+  inversion H; subst. constructor; [intros Hin; apply H2, in_or_app; auto | eapply IH; eauto].
+Qed.
+Lemma rev_prefix_nodup : forall (ns : list (node A)) j, NoDup (map fst ns) -> NoDup (map fst (rev_prefix j ns)).
+Proof.
+  intros ns j H. unfold rev_prefix. rewrite map_rev. apply NoDup_rev.
+  rewrite <- (firstn_skipn j ns), map_app in H. eapply NoDup_app_left; eauto.
+Qed.
+
+Lemma step_inv : forall w st a,
+  pipes_nodup w -> st_inv st -> match a with Advance dt => 0 <= dt | _ => True end -> st_inv (snd (step w st a)).
+Proof.
+  intros w st a Hw H Ha. unfold st_inv in *. destruct a as [k j ak|k j|dt|mi]; simpl.
+  - destruct (nth_error (w_pipes w) k) as [P|] eqn:EP; auto.
     destruct (nth_error (w_ctxs w) (p_ctx P)) as [cx|]; auto.
     destruct (nth_error (s_mgrs st) (c_mgr cx)) as [m|] eqn:Em; auto.
     destruct (length (p_nodes P) <? j)%nat; auto.
-    pose proof (run_action_inv (c_pool cx) (s_now st) (rev_prefix j (p_nodes P)) (p_parts P) ak m
+    assert (Hn : NoDup (map fst (rev_prefix j (p_nodes P)))).
+    { apply rev_prefix_nodup. eapply (Forall_nth _ _ _ _ Hw); eauto. }
+    pose proof (run_action_inv (c_pool cx) (s_now st) (rev_prefix j (p_nodes P)) (p_parts P) ak m Hn
                   (Forall_nth _ _ _ _ H Em)) as R.
     destruct (run_action_on (c_pool cx) (s_now st) (rev_prefix j (p_nodes P)) (p_parts P) ak m) as [[r ev] m'].
     simpl in *. apply set_nth_Forall'; auto.
@@ -234,10 +486,10 @@ Proof.
     apply set_nth_Forall'; auto. apply mgr_inv_gc. eapply Forall_nth; eauto.
 Qed.
 
-Lemma history_inv : forall w h st, st_inv st -> clock_monotone h -> st_inv (final_state w st h).
+Lemma history_inv : forall w h st, pipes_nodup w -> st_inv st -> clock_monotone h -> st_inv (final_state w st h).
 Proof.
-  intros w h. unfold final_state. induction h as [|a h IH]; intros st H Hm; simpl; auto.
-  apply IH.
+  intros w h. unfold final_state. induction h as [|a h IH]; intros st Hw H Hm; simpl; auto.
+  apply IH; auto.
   - apply step_inv; auto. destruct a; simpl in Hm; tauto.
   - destruct a; simpl in Hm; tauto.
 Qed.
@@ -246,33 +498,8 @@ Lemma init_inv : forall tos, st_inv (init_state A tos).
 Proof.
   intros tos. unfold st_inv, init_state; simpl. apply Forall_forall. intros m Hm.
   apply in_map_iff in Hm. destruct Hm as [t [<- _]]. unfold mgr_inv, empty_mgr; simpl.
-  destruct t; auto. repeat split; simpl; auto; intros; contradiction.
-Qed.
-
-(* gc_complete along histories: whatever happened before (adds, joins from pool workers, unpersists,
-   earlier gcs), a gc() at the current time leaves nothing that was added at or before now - timeout *)
-Theorem gc_complete : forall w tos h mi m to,
-  clock_monotone h ->
-  let st := final_state w (init_state A tos) h in
-  nth_error (s_mgrs st) mi = Some m -> m_timeout m = Some to ->
-  forall k d t, In (k, (d, t)) (m_entries (m_gc (s_now st) m)) -> t > s_now st - to.
-Proof.
-  intros w tos h mi m to Hm st Em Hto k d t Hin.
-  pose proof (history_inv w h (init_state A tos) (init_inv tos) Hm) as Hi.
-  fold st in Hi. pose proof (Forall_nth _ _ _ _ Hi Em) as Hmi. unfold mgr_inv in Hmi. rewrite Hto in Hmi.
-  eapply gc_complete_mgr; eauto.
-Qed.
-
-(* add and join run gc themselves: in every reachable state NO entry of a timed manager that was
-   stamped by the last add/join... is weaker than the above; what always holds is the invariant: *)
-Theorem timed_invariant_reachable : forall w tos h mi m to,
-  clock_monotone h ->
-  let st := final_state w (init_state A tos) h in
-  nth_error (s_mgrs st) mi = Some m -> m_timeout m = Some to -> timed_inv (s_now st) m.
-Proof.
-  intros w tos h mi m to Hm st Em Hto.
-  pose proof (history_inv w h (init_state A tos) (init_inv tos) Hm) as Hi.
-  fold st in Hi. pose proof (Forall_nth _ _ _ _ Hi Em) as Hmi. unfold mgr_inv in Hmi. rewrite Hto in Hmi. exact Hmi.
+  destruct t; auto. split; [exact I|]. split; [intros kt []|]. split; [intros k d t []|].
+  split; [intros k t []|constructor].
 Qed.
 
 End Timed.
